@@ -15,6 +15,7 @@ import (
 	"strconv"
 	"strings"
 	"sync"
+	"syscall"
 	"time"
 )
 
@@ -25,6 +26,12 @@ type Violation struct {
 	Case json.RawMessage `json:"case"` // replayable case descriptor (property specific)
 	Obs  string          `json:"obs"`  // observation; a replay must reproduce it byte for byte
 	Ord  int64           `json:"ord"`  // enumeration ordinal (smaller = simpler), used to keep the minimal one
+	// Worker "i/n" is the shard that saw it. History is set by the coordinator when the case alone does
+	// not reproduce in a fresh process but the shard's case sequence up to it does, identically: the
+	// failure then depends on earlier calls into the code under test in the same process, and the
+	// replay is that whole sequence (vdrv --replay runs it).
+	Worker  string `json:"worker,omitempty"`
+	History bool   `json:"history_dependent,omitempty"`
 }
 
 // Report is what one worker hands back.
@@ -47,18 +54,60 @@ type Report struct {
 
 // Ctx is handed to a property driver running as worker Shard of Shards.
 type Ctx struct {
-	ID     string
-	Tier   string // quick | thorough
-	Shard  int
-	Shards int
-	Seed   int64
-	Work   string // per-worker scratch directory (exists, empty, removed afterwards)
-	Rep    Report
-	ord    int64
+	ID      string
+	Tier    string // quick | thorough
+	Shard   int
+	Shards  int
+	Seed    int64
+	Work    string // per-worker scratch directory (exists, empty, removed afterwards)
+	Rep     Report
+	ord     int64
 	mu      sync.Mutex
 	dl      time.Time
 	curFile string
+	hbFile  string
+	hbLast  time.Time
+	// prefix replay: stop once the case with ordinal stopOrd is complete and report what was recorded for stopSig
+	stopOrd int64
+	stopSig string
 }
+
+// realStdout: drivers silence os.Stdout while the code under test runs.
+var realStdout = os.Stdout
+
+func (c *Ctx) finishPrefix() {
+	ro := replayOut{Obs: "no violation with this signature at this position"}
+	for _, v := range c.Rep.Violations {
+		if v.Sig == c.stopSig && v.Ord == c.stopOrd {
+			ro = replayOut{v.Obs, v.Sig}
+		}
+	}
+	os.RemoveAll(c.Work)
+	o, _ := json.Marshal(ro)
+	fmt.Fprintf(realStdout, "REPLAY %s\n", o)
+	if ro.Sig != "" {
+		fmt.Fprintf(realStdout, "replayed (case sequence of the shard up to the case): violation %s\n  observed: %s\n", ro.Sig, ro.Obs)
+		os.Exit(1)
+	}
+	fmt.Fprintf(realStdout, "replayed (case sequence of the shard up to the case): no violation\n")
+	os.Exit(0)
+}
+
+// beat tells the coordinator that this worker is alive and which case it is at (at most once a second).
+func (c *Ctx) beat() {
+	if c.hbFile == "" {
+		return
+	}
+	now := time.Now()
+	if now.Sub(c.hbLast) < time.Second {
+		return
+	}
+	c.hbLast = now
+	os.WriteFile(c.hbFile, []byte(strconv.FormatInt(c.ord, 10)), 0o644)
+}
+
+// Beat lets a driver signal progress inside one long case (e.g. per explored schedule).
+func (c *Ctx) Beat() { c.beat() }
 
 // Thorough reports whether the thorough tier was requested.
 func (c *Ctx) Thorough() bool { return c.Tier == "thorough" }
@@ -68,8 +117,12 @@ func (c *Ctx) Mine(i int64) bool { return int(i%int64(c.Shards)) == c.Shard }
 
 // Case counts one explored case; nontrivial per the property's stated rule.
 func (c *Ctx) Case(nontrivial bool) {
+	if c.stopSig != "" && c.ord > c.stopOrd+1 {
+		c.finishPrefix()
+	}
 	c.Rep.Evaluations++
 	c.ord++
+	c.beat()
 	if nontrivial {
 		c.Rep.NonTrivial++
 	}
@@ -88,10 +141,11 @@ func (c *Ctx) Count(name string, n int64) { c.Rep.Counters[name] += n }
 func (c *Ctx) Step(states, transitions int64) {
 	c.Rep.States += states
 	c.Rep.Transitions += transitions
+	c.beat()
 }
 
 // Impl counts calls into the implementation under test (executions of real code).
-func (c *Ctx) Impl(n int64) { c.Rep.ImplRuns += n }
+func (c *Ctx) Impl(n int64) { c.Rep.ImplRuns += n; c.beat() }
 
 // Depth records the maximal depth (choice points, history length) seen.
 func (c *Ctx) Depth(d int) {
@@ -133,7 +187,7 @@ func (c *Ctx) Violation(sig, desc string, cs any, obs string) {
 	if err != nil {
 		panic("mcx: case not serialisable: " + err.Error())
 	}
-	c.Rep.Violations = append(c.Rep.Violations, Violation{Sig: sig, Desc: desc, Case: raw, Obs: obs, Ord: c.ord})
+	c.Rep.Violations = append(c.Rep.Violations, Violation{Sig: sig, Desc: desc, Case: raw, Obs: obs, Ord: c.ord, Worker: fmt.Sprintf("%d/%d", c.Shard, c.Shards)})
 }
 
 // Current records the case about to be executed (drivers whose cases may kill the process call it
@@ -272,6 +326,10 @@ func workerMain(d *Driver, tier, worker, out string) {
 	if d.CrashIsViolation && out != "" {
 		c.curFile = strings.TrimSuffix(out, ".json") + ".current"
 	}
+	if out != "" {
+		c.hbFile = strings.TrimSuffix(out, ".json") + ".hb"
+		c.beat()
+	}
 	b := d.BudgetQuick
 	if tier == "thorough" {
 		b = d.BudgetThorough
@@ -305,6 +363,15 @@ func replayMain(d *Driver, tier, file string) int {
 	if err := json.Unmarshal(raw, &v); err != nil {
 		fmt.Fprintln(os.Stderr, "INFRA:", err)
 		return 2
+	}
+	if v.History {
+		var i, n int
+		fmt.Sscanf(v.Worker, "%d/%d", &i, &n)
+		c := newCtx(d.ID, tier, i, n)
+		c.Work = scratch(d.ID, "replay")
+		c.stopOrd, c.stopSig = v.Ord, v.Sig
+		d.Run(c)
+		c.finishPrefix()
 	}
 	c := newCtx(d.ID, tier, 0, 1)
 	c.Work = scratch(d.ID, "replay")
@@ -375,9 +442,10 @@ func coordinator(d *Driver, tier string) int {
 	os.RemoveAll(outDir)
 	os.MkdirAll(outDir, 0o755)
 	type res struct {
-		rep  *Report
-		err  error
-		tail string
+		rep     *Report
+		err     error
+		tail    string
+		stalled string // case ordinal at which the worker stopped making progress, twice
 	}
 	results := make([]res, n)
 	var wg sync.WaitGroup
@@ -398,7 +466,30 @@ func coordinator(d *Driver, tier string) int {
 			cmd.Stdout = lf
 			cmd.Stderr = lf
 			cmd.Env = append(os.Environ(), "GOMAXPROCS=2")
-			err := cmd.Run()
+			hb := filepath.Join(outDir, fmt.Sprintf("w%d.hb", i))
+			err, stalledAt := runWatched(cmd, hb, stallLimit(tier))
+			if stalledAt != "" {
+				// a second, fresh run of the same shard decides whether the stall is a property of the code
+				// under test (same position again) or of the machine (then the run is inconclusive)
+				fmt.Fprintf(lf, "\nworker made no progress for %v at case %s; running the shard again\n", stallLimit(tier), stalledAt)
+				os.Remove(out)
+				cmd2 := exec.Command(self, cmd.Args[1:]...)
+				cmd2.Stdout, cmd2.Stderr, cmd2.Env = lf, lf, cmd.Env
+				err2, again := runWatched(cmd2, hb, stallLimit(tier))
+				switch {
+				case again == "":
+					err = err2 // it went through this time: take that result, note the hiccup
+					fmt.Fprintf(lf, "second run of the shard completed\n")
+				case again == stalledAt:
+					lf.Close()
+					results[i] = res{err: fmt.Errorf("stalled"), stalled: stalledAt}
+					return
+				default:
+					lf.Close()
+					results[i] = res{err: fmt.Errorf("worker stalled at case %s, then at case %s: not reproducible", stalledAt, again)}
+					return
+				}
+			}
 			lf.Close()
 			raw, rerr := os.ReadFile(out)
 			if rerr != nil {
@@ -425,6 +516,7 @@ func coordinator(d *Driver, tier string) int {
 	// merge
 	m := newCtx(d.ID, tier, 0, 1).Rep
 	vio := map[string][]Violation{}
+	var stalledV []Violation
 	for i, r := range results {
 		if r.rep == nil && d.CrashIsViolation {
 			cur := filepath.Join(outDir, fmt.Sprintf("w%d.current", i))
@@ -438,6 +530,14 @@ func coordinator(d *Driver, tier string) int {
 					continue
 				}
 			}
+		}
+		if r.rep == nil && r.stalled != "" {
+			sig := d.ID + "|no-result|code-under-test-does-not-return"
+			desc := fmt.Sprintf("worker %d/%d (tier %s) completed no case for %v after case number %s, in two fresh processes at the same position: the call into the code under test for the next case of this shard does not return. Reproduce: work/bin/vdrv-%s %s --tier %s --worker %d/%d --out /dev/null", i, n, tier, stallLimit(tier), r.stalled, d.ID, d.ID, tier, i, n)
+			cs, _ := json.Marshal(map[string]any{"stalled_worker": fmt.Sprintf("%d/%d", i, n), "tier": tier, "after_case": r.stalled})
+			stalledV = append(stalledV, Violation{Sig: sig, Desc: desc, Case: cs, Obs: "no result"})
+			m.Caps = append(m.Caps, fmt.Sprintf("worker %d hung; its remaining cases were not explored", i))
+			continue
 		}
 		if r.rep == nil {
 			fmt.Fprintf(os.Stderr, "INFRA: worker %d of %s failed: %v\n%s\n", i, d.ID, r.err, r.tail)
@@ -553,9 +653,34 @@ func coordinator(d *Driver, tier string) int {
 				break
 			}
 		}
+		if !confirmed && len(cands) > 0 && cands[0].Worker != "" {
+			// The case alone does not reproduce. Does the shard's case sequence up to it? Then the failure is
+			// real and depends on earlier calls in the same process; the sequence is the replay.
+			cand := cands[0]
+			cand.History = true
+			cand.Desc += " -- this case alone does not fail in a fresh process; the case sequence of worker " + cand.Worker + " up to it does, identically each time: the result depends on earlier calls into the code under test in the same process"
+			raw, _ := json.MarshalIndent(cand, "", " ")
+			os.WriteFile(file, raw, 0o644)
+			same := 0
+			for k := 0; k < 2; k++ {
+				out, _ := exec.Command(self, d.ID, "--tier", tier, "--replay", file).CombinedOutput()
+				var ro replayOut
+				for _, ln := range strings.Split(string(out), "\n") {
+					if strings.HasPrefix(ln, "REPLAY ") {
+						json.Unmarshal([]byte(ln[7:]), &ro)
+					}
+				}
+				if ro.Sig == cand.Sig && ro.Obs == cand.Obs {
+					same++
+				}
+			}
+			if same == 2 {
+				v, confirmed = cand, true
+			}
+		}
 		if !confirmed {
-			// never reported as a violation (DESIGN §2.7): an observation that a fresh process does not
-			// reproduce depends on state left behind by earlier cases of the same worker.
+			// never reported as a violation (DESIGN §2.7): an observation that neither a fresh process nor
+			// the same case sequence reproduces.
 			os.Remove(file)
 			unreproduced = append(unreproduced, s)
 			continue
@@ -575,6 +700,21 @@ func coordinator(d *Driver, tier string) int {
 		}
 	}
 
+	// a worker that hung twice at the same case (already re-run in a fresh process, see runWatched)
+	if len(stalledV) > 0 {
+		v := stalledV[0]
+		os.MkdirAll(repDir, 0o755)
+		file := filepath.Join(repDir, sigFile(v.Sig))
+		raw, _ := json.MarshalIndent(v, "", " ")
+		os.WriteFile(file, raw, 0o644)
+		m.VioCounts[v.Sig] += int64(len(stalledV))
+		sigs = append(sigs, v.Sig)
+		nUnlisted++
+		lines = append(lines, fmt.Sprintf("VIOLATION property=%s replay=%s", d.ID, file))
+		lines = append(lines, fmt.Sprintf("  signature: %s (%d workers)\n  %s", v.Sig, len(stalledV), v.Desc))
+		exit = 1
+	}
+
 	// evidence
 	level := d.Level
 	if level == "" {
@@ -582,21 +722,21 @@ func coordinator(d *Driver, tier string) int {
 	}
 	outcomes := len(m.Outcomes)
 	cov := map[string]any{
-		"evaluations":                   m.Evaluations,
-		"distinct_nontrivial":           m.NonTrivial,
-		"rule":                          d.Rule,
-		"samples":                       m.Samples,
-		"exhaustive":                    len(m.Caps) == 0,
-		"caps_hit":                      m.Caps,
-		"distinct_outcome_classes":      outcomes,
-		"outcome_classes":               m.Outcomes,
-		"dont_care_classes":             m.DontCare,
-		"counters":                      m.Counters,
-		"max_depth":                     m.MaxDepth,
-		"violation_signatures":          m.VioCounts,
-		"unreproduced_signatures":       unreproduced,
-		"workers":                       n,
-		"notes":                         m.Notes,
+		"evaluations":              m.Evaluations,
+		"distinct_nontrivial":      m.NonTrivial,
+		"rule":                     d.Rule,
+		"samples":                  m.Samples,
+		"exhaustive":               len(m.Caps) == 0,
+		"caps_hit":                 m.Caps,
+		"distinct_outcome_classes": outcomes,
+		"outcome_classes":          m.Outcomes,
+		"dont_care_classes":        m.DontCare,
+		"counters":                 m.Counters,
+		"max_depth":                m.MaxDepth,
+		"violation_signatures":     m.VioCounts,
+		"unreproduced_signatures":  unreproduced,
+		"workers":                  n,
+		"notes":                    m.Notes,
 	}
 	if m.States > 0 && m.Transitions > 0 {
 		// states/transitions of the explored tree or graph, counted by the driver;
@@ -637,10 +777,53 @@ func coordinator(d *Driver, tier string) int {
 	return exit
 }
 
+// stallLimit is how long a worker may go without completing a single case before it is considered hung.
+// No case of any driver takes more than seconds; the limit is far above that so that machine load cannot
+// reach it. VERIF_STALL_SECONDS overrides it (used to demonstrate the watchdog).
+func stallLimit(tier string) time.Duration {
+	if v, err := strconv.Atoi(os.Getenv("VERIF_STALL_SECONDS")); err == nil && v > 0 {
+		return time.Duration(v) * time.Second
+	}
+	return 10 * time.Minute
+}
+
+// runWatched runs a worker and kills it (with its children) when its heartbeat file stops changing for
+// longer than limit; it then returns the last case ordinal the worker reported.
+func runWatched(cmd *exec.Cmd, hb string, limit time.Duration) (error, string) {
+	os.Remove(hb)
+	cmd.SysProcAttr = &syscall.SysProcAttr{Setpgid: true}
+	if err := cmd.Start(); err != nil {
+		return err, ""
+	}
+	done := make(chan error, 1)
+	go func() { done <- cmd.Wait() }()
+	last := time.Now()
+	lastOrd := "0"
+	tick := time.NewTicker(2 * time.Second)
+	defer tick.Stop()
+	for {
+		select {
+		case err := <-done:
+			return err, ""
+		case <-tick.C:
+			if raw, err := os.ReadFile(hb); err == nil && string(raw) != lastOrd {
+				lastOrd = string(raw)
+				last = time.Now()
+			} else if st, err := os.Stat(hb); err == nil && st.ModTime().After(last) {
+				last = st.ModTime() // Beat() inside one long case
+			}
+			if time.Since(last) > limit {
+				syscall.Kill(-cmd.Process.Pid, syscall.SIGKILL)
+				<-done
+				return fmt.Errorf("no progress for %v", limit), lastOrd
+			}
+		}
+	}
+}
+
 func tailStr(s string, n int) string {
 	if len(s) > n {
 		return s[len(s)-n:]
 	}
 	return s
 }
-
